@@ -209,7 +209,23 @@ impl Sub for ExpectedClaims {
   }
 }
 
-const KEYS: [&str; 12] = ["iss", "sub", "aud", "jti", "iat", "role", "rol", "Role", "n", "data", "é", "nested"];
+const KEYS: [&str; 15] = ["iss", "sub", "aud", "jti", "iat", "role", "rol", "Role", "n", "data", "é", "nested", "exp", "nbf", "iat"];
+
+/// the same instant written another way: other offset, `Z` vs `+00:00`, other number of fraction digits; or the same
+/// second with another fraction (a different instant) - all of them other JSON strings than `s`
+fn respell(s: &str, how: u8) -> Option<String> {
+  let (secs, nanos) = crate::tgen::parse_rfc3339(s)?;
+  let r = |offset_min: i16, digits: u8, zulu: u8| crate::tgen::Rendering { offset_min, digits, sep: 0, zulu };
+  let out = match how % 6 {
+    0 => crate::tgen::render(secs, nanos, &r(0, 0, 1)),
+    1 => crate::tgen::render(secs, nanos, &r(0, 0, 0)),
+    2 => crate::tgen::render(secs, nanos, &r(-300, 0, 0)),
+    3 => crate::tgen::render(secs, nanos, &r(0, 3, 1)),
+    4 => crate::tgen::render(secs, 999_000_000, &r(0, 3, 1)),
+    _ => crate::tgen::render(secs, nanos, &r(60, 9, 0)),
+  };
+  if out == s { None } else { Some(out) }
+}
 
 fn key() -> BoxedStrategy<String> {
   prop_oneof![8 => any::<u16>().prop_map(|i| KEYS[pick(i, KEYS.len())].to_string()), 1 => gen::json_key()].boxed()
@@ -218,6 +234,7 @@ fn key() -> BoxedStrategy<String> {
 fn value() -> BoxedStrategy<Value> {
   prop_oneof![
     4 => prop_oneof![Just("admin"), Just("Admin"), Just("admin "), Just("adm"), Just(""), Just("x"), Just("137"), Just("true"), Just("-3")].prop_map(|s| json!(s)),
+    2 => prop_oneof![Just("2030-01-01T00:00:00Z"), Just("2030-01-01T00:00:00+00:00"), Just("2019-01-01T00:00:00+00:00"), Just("2030-06-30T23:59:59.5-05:00"), Just("2000-02-29T12:00:00.000Z")].prop_map(|s| json!(s)),
     1 => Just(json!(137)),
     2 => (-3i64..4).prop_map(|i| json!(i)),
     1 => Just(json!(1.0)),
@@ -272,7 +289,7 @@ fn typed(key: &str, v: &Value, form: u8) -> ClaimSpec {
 
 fn case(proto: Proto, layer: Layer) -> BoxedStrategy<ExpectCase> {
   // base claim set S, expectations derived from it, then per-token perturbations of S
-  (gen::bytes32(), vec((key(), value()), 0..5), vec((any::<u16>(), 0u8..10, value(), any::<u8>()), 0..4), vec((0u8..6, any::<u16>(), value()), 1..=6), any::<bool>(), vec((1u8..6, any::<u16>(), 0u8..10, value(), any::<u8>()), 0..3), any::<bool>())
+  (gen::bytes32(), vec((key(), value()), 0..5), vec((any::<u16>(), 0u8..11, value(), any::<u8>()), 0..4), vec((0u8..6, any::<u16>(), value()), 1..=6), any::<bool>(), vec((1u8..6, any::<u16>(), 0u8..11, value(), any::<u8>()), 0..3), any::<bool>())
     .prop_map(move |(seed, base, exp_rel, perturb, via_builder, late_rel, via_extend)| {
       let base_obj: serde_json::Map<String, Value> = base.iter().cloned().collect();
       let base_keys: Vec<String> = base_obj.keys().cloned().collect();
@@ -294,6 +311,10 @@ fn case(proto: Proto, layer: Layer) -> BoxedStrategy<ExpectCase> {
               if n.is_finite() { typed(&k, &json!(n), *form) } else { typed(&k, &cur, *form) }
             }
             _ => typed(&k, &json!(0.1 + 0.2), *form),
+          },
+          10 => match cur.as_str().and_then(|t| respell(t, *form)) {              // a timestamp written another way
+            Some(t) => typed(&k, &json!(t), *form),
+            None => typed(&k, &json!("2030-01-01T00:00:00Z"), *form),
           },
           8 => match &cur {                                                     // same text, other JSON type
             Value::Number(n) => typed(&k, &json!(n.to_string()), *form),
@@ -339,6 +360,15 @@ fn case(proto: Proto, layer: Layer) -> BoxedStrategy<ExpectCase> {
       if let Some((5, ki, v)) = perturb.first() {
         if ki % 16 == 0 {
           payloads[0] = json!([v.clone()]); // a non-object payload
+        }
+      }
+      if layer == Layer::Prelude {
+        // the batteries-included parser applies its own rules to exp / nbf (C11 / C12): they stay out of these payloads
+        for p in payloads.iter_mut() {
+          if let Some(o) = p.as_object_mut() {
+            o.remove("exp");
+            o.remove("nbf");
+          }
         }
       }
       ExpectCase { proto, layer, seed, payloads, via_builder, expect, late, via_extend }
